@@ -439,4 +439,115 @@ theorem T_C14_renumber_quad_counterexamples :
   refine ⟨canon0_ne_of_mem _ _ ⟨1, 4 / 85⟩ (by decide +kernel) (by decide +kernel),
     canon0_ne_of_mem _ _ ⟨1, 3 / 5⟩ (by decide +kernel) (by decide +kernel), by decide +kernel⟩
 
+/-! ### tie to the source text -/
+
+/-- The statement skeletons of the methods on the execution path of `CellBase.quality` and `GridBase.quality` /
+    `update`, regenerated from the *current* source with `ast` on every run (`cbv/tables/c14.py`; one string per
+    statement, `depth:text`, locals renamed a0, a1, …), are the ones the model (`hexSide`, `quadSide`, `c2c`, `G`,
+    `degenerate`, `cellQualities`, `junctionQuality`) was transcribed from: the neighbour-or-side-centre choice of
+    `c2c`, the clip before `arccos`, the three `q_scale` terms with their constants `(1.25, 0.35, 0.8)`,
+    `(1.5, 0.25, 0.15)`, `(3, 2.5, 3)`, `min edge + VSMALL`, the `RuntimeWarning → ValueError` conversion; `edge_pairs`
+    in `get_edge_lengths`; corners 0, 1, 3 of `QuadCell.normal`; `(i-1) % 4, i, (i+1) % 4` of the quad corner angle;
+    the `np.roll(±1)` and the `+ VSMALL` guards of the hexahedron's normals and corner sides.  A change of any of
+    these breaks this proof obligation. -/
+theorem T_C14_source_skeleton :
+    CBV.Gen.c14SrcQuality =
+      ["def quality(self)",
+       "0:a0 = 0",
+       "0:a1 = self.center",
+       "0:def q_scale(a2, a3, a4, a5)",
+       "1:return a4 * a2 ** (a3 * a5) - a4",
+       "0:try",
+       "1:warnings.filterwarnings('error')",
+       "1:for (a6, a7) in self.neighbours.items()",
+       "2:a8 = self.side_names.index(a6)",
+       "2:if a7 is None",
+       "3:a9 = a1 - self.get_side_center(a8)",
+       "2:else",
+       "3:a9 = a1 - a7.center",
+       "2:a10 = a9 / np.linalg.norm(a9)",
+       "2:a11 = 180 * np.arccos(np.clip(np.dot(self.get_side_normals(a8), a10), -1.0, 1.0)) / np.pi",
+       "2:a0 += np.sum(q_scale(1.25, 0.35, 0.8, a11))",
+       "2:a0 += np.sum(q_scale(1.5, 0.25, 0.15, abs(self.get_inner_angles(a8))))",
+       "1:a12 = self.get_edge_lengths()",
+       "1:a13 = max(a12)",
+       "1:a14 = min(a12) + VSMALL",
+       "1:a15 = np.log10(a13 / a14)",
+       "1:a0 += np.sum(q_scale(3, 2.5, 3, a15))",
+       "0:except RuntimeWarning",
+       "1:raise ValueError(f'Degenerate Cell: {self}') from RuntimeWarning",
+       "0:finally",
+       "1:warnings.resetwarnings()",
+       "0:return a0"] ∧
+    CBV.Gen.c14SrcEdgeLengths =
+      ["def get_edge_lengths(self)",
+       "0:a0 = self.points",
+       "0:return np.array([f.norm(a0[a1[1]] - a0[a1[0]]) for a1 in self.edge_pairs])"] ∧
+    CBV.Gen.c14SrcPoints =
+      ["def points(self)",
+       "0:return np.take(self.grid_points, self.indexes, axis=0)"] ∧
+    CBV.Gen.c14SrcCenter =
+      ["def center(self)",
+       "0:return np.average(self.points, axis=0)"] ∧
+    CBV.Gen.c14SrcSidePoints =
+      ["def get_side_points(self, a0)",
+       "0:return np.take(self.points, self.side_indexes[a0], axis=0)"] ∧
+    CBV.Gen.c14SrcSideCenter =
+      ["def get_side_center(self, a0)",
+       "0:return np.average(self.get_side_points(a0), axis=0)"] ∧
+    CBV.Gen.c14SrcQuadNormal =
+      ["def normal(self)",
+       "0:a0 = self.points",
+       "0:return np.cross(a0[1] - a0[0], a0[3] - a0[0])"] ∧
+    CBV.Gen.c14SrcQuadSideNormals =
+      ["def get_side_normals(self, a0)",
+       "0:a1 = self.get_side_points(a0)",
+       "0:a2 = a1[1] - a1[0]",
+       "0:a3 = np.cross(self.normal, a2)",
+       "0:return [f.unit_vector(a3)]"] ∧
+    CBV.Gen.c14SrcQuadInnerAngles =
+      ["def get_inner_angles(self, a0)",
+       "0:a1 = np.take(self.points, ((a0 - 1) % 4, a0, (a0 + 1) % 4), axis=0)",
+       "0:a2 = f.unit_vector(a1[2] - a1[1])",
+       "0:a3 = f.unit_vector(a1[0] - a1[1])",
+       "0:return np.expand_dims(180 * np.arccos(np.clip(np.dot(a2, a3), -1.0, 1.0)) / np.pi - 90, axis=0)"] ∧
+    CBV.Gen.c14SrcHexSideNormals =
+      ["def get_side_normals(self, a0)",
+       "0:a1 = self.get_side_center(a0)",
+       "0:a2 = self.get_side_points(a0)",
+       "0:a3 = a2 - a1",
+       "0:a4 = np.roll(a2, -1, axis=0) - a1",
+       "0:a5 = np.cross(a3, a4)",
+       "0:a6 = np.linalg.norm(a5, axis=1) + VSMALL",
+       "0:return a5 / a6[:, np.newaxis]"] ∧
+    CBV.Gen.c14SrcHexInnerAngles =
+      ["def get_inner_angles(self, a0)",
+       "0:a1 = self.get_side_points(a0)",
+       "0:a2 = np.roll(a1, -1, axis=0) - a1",
+       "0:a3 = np.linalg.norm(a2, axis=1) + VSMALL",
+       "0:a2 = a2 / a3[:, np.newaxis]",
+       "0:a4 = np.roll(a1, 1, axis=0) - a1",
+       "0:a5 = np.linalg.norm(a4, axis=1) + VSMALL",
+       "0:a4 = a4 / a5[:, np.newaxis]",
+       "0:a6 = np.sum(a2 * a4, axis=1)",
+       "0:return 180 * np.arccos(np.clip(a6, -1.0, 1.0)) / np.pi - 90"] ∧
+    CBV.Gen.c14SrcGridQuality =
+      ["def quality(self)",
+       "0:return sum([a0.quality for a0 in self.cells])"] ∧
+    CBV.Gen.c14SrcJunctionQuality =
+      ["def quality(self)",
+       "0:return sum([a0.quality for a0 in self.cells]) / len(self.cells)"] ∧
+    CBV.Gen.c14SrcGridUpdate =
+      ["def update(self, a0, a1)",
+       "0:self.points[a0] = a1",
+       "0:a2 = self.junctions[a0]",
+       "0:if len(a2.links) > 0",
+       "1:for a3 in a2.links",
+       "2:a3.link.leader = a1",
+       "2:a3.link.update()",
+       "2:self.points[a3.follower_index] = a3.link.follower",
+       "1:return self.quality",
+       "0:return a2.quality"] := by
+  decide
+
 end CBV.C14
